@@ -120,8 +120,9 @@ def c02(rep, tier, seed):
     cl = ("rectangular", "row_view", "ragged_outcome", "structure")
     suite_heap.mc(rep, tier, ["tables"])
     suite_heap.devs(rep, ["RaggedAccepted"])
-    suite_heap.gen(rep, tier, "tables2", cl)
-    suite_heap.gen(rep, tier, "tables", cl)
+    suite_heap.gen(rep, tier, "tables2deep", cl)        # incl. zero-length vectors and zero-row tables
+    if tier != "quick":
+        suite_heap.gen(rep, tier, "tables", cl)
     suite_heap.trace(rep, tier, seed, cl)
     suite_table.enumerated(rep, "struct", cl + ("stack", "append_rows", "transpose", "construct"))
 
